@@ -11,6 +11,8 @@
 //!   op   = X/<s>/<node>/<uc>/<psize o>/<paging ob>/<value>/<cons>/<serial o>/<ts o>/<pseed>/<haspg>
 //!        | I/<s>/<node>/<uc>/<psize>/<value>/<cons>/<serial o>/<ts o>/<pseed>/<pages>   (execute_iter: the pager fetches <pages> pages)
 //!        | B/<node>/<type>/<cons>/<serial o>/<ts o>/<items>       items: p<s>.<value> | q<text>, '+'-joined
+//!        | Y/<d0>/<d1>      the next two X ops run CONCURRENTLY (same statement handle, different nodes); every answer
+//!                           of the first / second one's node is delayed by d0 / d1 ms
 //!        | E/<node>/<p|e|s|i>/<s>/<arg>
 //!        | F/<node>/<resp>                                        (forced answer to the next user request at node)
 //!   obs  = O/<node>/<req>><resp>;<req>><resp>.../<outcome>        one per X / B op, in order; an I op gives OI/<k> followed by k of them (one per page)
@@ -100,6 +102,7 @@ enum Op {
     X { s: usize, node: usize, uc: bool, psize: Option<u32>, paging: Option<Vec<u8>>, value: Vec<u8>, cons: u16, serial: Option<u16>, ts: Option<i64>, pseed: u64, haspg: bool },
     I { s: usize, node: usize, uc: bool, psize: u32, value: Vec<u8>, cons: u16, serial: Option<u16>, ts: Option<i64>, pseed: u64, pages: u32 },
     B { node: usize, btype: u8, cons: u16, serial: Option<u16>, ts: Option<i64>, items: Vec<BItem> },
+    Y { d0: u64, d1: u64 },
     E { node: usize, kind: char, s: usize, arg: u64 },
     F { node: usize, resp: Resp },
 }
@@ -295,6 +298,7 @@ impl Case {
                         .collect();
                     format!("B/{:x}/{:x}/{:x}/{}/{}/{}", node, btype, cons, enc_on(serial.map(|x| x as u64)), enc_ots(*ts), it.join("+"))
                 }
+                Op::Y { d0, d1 } => format!("Y/{:x}/{:x}", d0, d1),
                 Op::E { node, kind, s, arg } => format!("E/{:x}/{}/{:x}/{:x}", node, kind, s, arg),
                 Op::F { node, resp } => format!("F/{:x}/{}", node, enc_resp(resp)),
             });
@@ -369,6 +373,7 @@ impl Case {
                         })
                         .collect(),
                 },
+                "Y" => Op::Y { d0: h(p[1]), d1: h(p[2]) },
                 "E" => Op::E { node: h(p[1]) as usize, kind: p[2].chars().next().unwrap(), s: h(p[3]) as usize, arg: h(p[4]) },
                 "F" => Op::F { node: h(p[1]) as usize, resp: dec_resp(p[2]) },
                 _ => return None,
@@ -400,6 +405,7 @@ struct Srv {
     haspg: bool,
     pages_left: u32,
     min_rows: u32,
+    delay: Vec<u64>,
 }
 
 fn gen_cell(r: &mut Rng, t: CT) -> CellV {
@@ -763,6 +769,37 @@ fn outcome_of(res: Result<(scylla::response::query_result::QueryResult, PagingSt
     }
 }
 
+/// one execute / single-page execute through a clone of the shared statement handle
+#[allow(clippy::too_many_arguments)]
+async fn exec_x(
+    session: &Session,
+    base: &PreparedStatement,
+    uc: bool,
+    psize: Option<u32>,
+    paging: &Option<Vec<u8>>,
+    value: &[u8],
+    cons: u16,
+    serial: Option<u16>,
+    ts: Option<i64>,
+) -> Result<(scylla::response::query_result::QueryResult, PagingStateResponse), ExecutionError> {
+    let mut p = base.clone();
+    p.set_use_cached_result_metadata(uc);
+    p.set_consistency(cons_of(cons));
+    p.set_serial_consistency(serial.map(serial_of));
+    p.set_timestamp(ts);
+    match psize {
+        None => session.execute_unpaged(&p, (value.to_vec(),)).await.map(|r| (r, PagingStateResponse::NoMorePages)),
+        Some(n) => {
+            p.set_page_size(n as i32);
+            let st = match paging {
+                None => PagingState::start(),
+                Some(b) => PagingState::new_from_raw_bytes(b.clone()),
+            };
+            session.execute_single_page(&p, (value.to_vec(),), st).await
+        }
+    }
+}
+
 async fn run_case(c: Case) -> String {
     // no sharding advertised: one pool connection per node on the plain port, OS-chosen source ports
     let mut spec = ClusterSpec::uniform("c14", &[("dc1", c.nnodes)], 1, 4, 0).with_keyspace(KeyspaceDef::simple("ks", 1));
@@ -788,6 +825,7 @@ async fn run_case(c: Case) -> String {
         haspg: false,
         pages_left: 0,
         min_rows: 0,
+        delay: vec![0; c.nnodes],
     }));
     {
         let srv = srv.clone();
@@ -808,7 +846,11 @@ async fn run_case(c: Case) -> String {
             if s.logging {
                 s.log.push((ctx.node, req, resp.clone()));
             }
-            Some(actions_of(&resp, s.ext))
+            let mut acts = actions_of(&resp, s.ext);
+            if s.logging && s.delay[ctx.node] > 0 {
+                acts.insert(0, Action::Delay(s.delay[ctx.node]));
+            }
+            Some(acts)
         })));
     }
     let target = Arc::new(AtomicUsize::new(0));
@@ -820,7 +862,7 @@ async fn run_case(c: Case) -> String {
         .build();
     let session: Session = match tokio::time::timeout(
         Duration::from_secs(20),
-        SessionBuilder::new().known_node_addr(cluster.contact_point(0)).connection_timeout(Duration::from_secs(5)).default_execution_profile_handle(profile.into_handle()).build(),
+        SessionBuilder::new().known_node_addr(cluster.contact_point(0)).local_ip_address(Some(cluster.client_ip())).connection_timeout(Duration::from_secs(5)).default_execution_profile_handle(profile.into_handle()).build(),
     )
     .await
     {
@@ -862,8 +904,65 @@ async fn run_case(c: Case) -> String {
     cluster.drain_trace();
 
     let mut obs: Vec<String> = vec![];
-    for o in &c.ops {
+    let mut oi = 0usize;
+    while oi < c.ops.len() {
+        let o = &c.ops[oi];
+        oi += 1;
         match o {
+            Op::Y { d0, d1 } => {
+                // the next two X ops, concurrently, through clones of the same PreparedStatement
+                let (Some(Op::X { s: s0, node: n0, uc: uc0, psize: ps0, paging: pg0, value: v0, cons: c0, serial: se0, ts: t0, pseed, .. }), Some(Op::X { s: s1, node: n1, uc: uc1, psize: ps1, paging: pg1, value: v1, cons: c1, serial: se1, ts: t1, .. })) = (c.ops.get(oi), c.ops.get(oi + 1)) else {
+                    return "error malformed-case Y needs two X ops".into();
+                };
+                oi += 2;
+                if n0 == n1 {
+                    return "error malformed-case concurrent calls must use different nodes".into();
+                }
+                {
+                    let mut g = srv.lock().unwrap();
+                    g.pseed = *pseed;
+                    g.pcount = 0;
+                    g.haspg = false;
+                    g.log.clear();
+                    g.delay[*n0] = *d0;
+                    g.delay[*n1] = *d1;
+                }
+                let pin0 = Arc::new(AtomicUsize::new(*n0));
+                let pin1 = Arc::new(AtomicUsize::new(*n1));
+                let ips: Vec<IpAddr> = (0..c.nnodes).map(|i| cluster.ip(i)).collect();
+                let mk = |pin: Arc<AtomicUsize>| {
+                    ExecutionProfile::builder()
+                        .request_timeout(Some(Duration::from_secs(10)))
+                        .load_balancing_policy(Arc::new(PinPolicy { target: pin, ips: ips.clone() }))
+                        .retry_policy(Arc::new(FallthroughRetryPolicy::new()))
+                        .build()
+                        .into_handle()
+                };
+                let mut pa = prepared[*s0].clone();
+                pa.set_execution_profile_handle(Some(mk(pin0)));
+                let mut pb = prepared[*s1].clone();
+                pb.set_execution_profile_handle(Some(mk(pin1)));
+                let (ra, rb) = tokio::join!(
+                    exec_x(&session, &pa, *uc0, *ps0, pg0, v0, *c0, *se0, *t0),
+                    exec_x(&session, &pb, *uc1, *ps1, pg1, v1, *c1, *se1, *t1)
+                );
+                let (oa, ob) = (outcome_of(ra), outcome_of(rb));
+                let log: Vec<(usize, String, Resp)> = {
+                    let mut g = srv.lock().unwrap();
+                    g.delay[*n0] = 0;
+                    g.delay[*n1] = 0;
+                    std::mem::take(&mut g.log)
+                };
+                if user_frames(&cluster, &srv) != log.len() {
+                    obs.push(format!("O/{:x}/TRACE-MISMATCH/{}", n0, oa));
+                    obs.push(format!("O/{:x}/TRACE-MISMATCH/{}", n1, ob));
+                } else {
+                    let la: Vec<_> = log.iter().filter(|e| e.0 == *n0).cloned().collect();
+                    let lb: Vec<_> = log.iter().filter(|e| e.0 != *n0).cloned().collect();
+                    obs.push(obs_token(*n0, &la, &oa));
+                    obs.push(obs_token(*n1, &lb, &ob));
+                }
+            }
             Op::E { node, kind, s, arg } => srv.lock().unwrap().event(*node, *kind, *s, *arg),
             Op::F { node, resp } => srv.lock().unwrap().forced[*node].push_back(resp.clone()),
             Op::X { s, node, uc, psize, paging, value, cons, serial, ts, pseed, haspg } => {
@@ -875,22 +974,7 @@ async fn run_case(c: Case) -> String {
                     g.log.clear();
                 }
                 target.store(*node, Ordering::SeqCst);
-                let mut p = prepared[*s].clone();
-                p.set_use_cached_result_metadata(*uc);
-                p.set_consistency(cons_of(*cons));
-                p.set_serial_consistency(serial.map(serial_of));
-                p.set_timestamp(*ts);
-                let res = match psize {
-                    None => session.execute_unpaged(&p, (value.clone(),)).await.map(|r| (r, PagingStateResponse::NoMorePages)),
-                    Some(n) => {
-                        p.set_page_size(*n as i32);
-                        let st = match paging {
-                            None => PagingState::start(),
-                            Some(b) => PagingState::new_from_raw_bytes(b.clone()),
-                        };
-                        session.execute_single_page(&p, (value.clone(),), st).await
-                    }
-                };
+                let res = exec_x(&session, &prepared[*s], *uc, *psize, paging, value, *cons, *serial, *ts).await;
                 let out = outcome_of(res);
                 obs.push(finish_obs(&cluster, &srv, *node, out));
             }
@@ -979,21 +1063,20 @@ async fn run_case(c: Case) -> String {
             }
         }
     }
-    drop(session);
     cluster.shutdown();
+    drop(session);
     if obs.is_empty() { "-".into() } else { obs.join(" ") }
 }
 
-/// Builds the observation token of one client op from the handler's log, cross-checked against
-/// the frames in the mock's trace (every user EXECUTE / BATCH / PREPARE must have been logged).
-fn finish_obs(cluster: &MockCluster, srv: &Arc<Mutex<Srv>>, node: usize, out: String) -> String {
-    let log: Vec<(usize, String, Resp)> = std::mem::take(&mut srv.lock().unwrap().log);
+/// Number of user frames (EXECUTE of a case statement, BATCH, PREPARE of a case statement) in the
+/// mock's frame trace since the last drain.
+fn user_frames(cluster: &MockCluster, srv: &Arc<Mutex<Srv>>) -> usize {
     let trace = cluster.drain_trace();
     let (ext, sids) = {
         let g = srv.lock().unwrap();
         (g.ext, g.stmts.iter().map(|s| s.sid.clone()).collect::<Vec<_>>())
     };
-    let user_frames = trace
+    trace
         .iter()
         .filter(|e| match &e.ev {
             Ev::In { opcode, body, .. } => match *opcode {
@@ -1004,14 +1087,29 @@ fn finish_obs(cluster: &MockCluster, srv: &Arc<Mutex<Srv>>, node: usize, out: St
             },
             _ => false,
         })
-        .count();
+        .count()
+}
+/// node field of an observation: the node all exchanges went to (whatever the case names), or
+/// 0xfe when the exchanges of ONE call went to different nodes
+fn node_field(named: usize, log: &[(usize, String, Resp)]) -> usize {
+    match log.first() {
+        None => named,
+        Some((n0, _, _)) => if log.iter().all(|(n, _, _)| n == n0) { *n0 } else { 0xfe },
+    }
+}
+fn obs_token(named: usize, log: &[(usize, String, Resp)], out: &str) -> String {
+    let xs: Vec<String> = log.iter().map(|(_, q, r)| format!("{}>{}", q, enc_resp(r))).collect();
+    format!("O/{:x}/{}/{}", node_field(named, log), if xs.is_empty() { "-".to_string() } else { xs.join(";") }, out)
+}
+/// Builds the observation token of one client op from the handler's log, cross-checked against
+/// the frames in the mock's trace (every user EXECUTE / BATCH / PREPARE must have been logged).
+fn finish_obs(cluster: &MockCluster, srv: &Arc<Mutex<Srv>>, node: usize, out: String) -> String {
+    let log: Vec<(usize, String, Resp)> = std::mem::take(&mut srv.lock().unwrap().log);
     // every user frame the mock received must have gone through the handler (and vice versa)
-    if user_frames != log.len() {
+    if user_frames(cluster, srv) != log.len() {
         return format!("O/{:x}/TRACE-MISMATCH/{}", node, out);
     }
-    let wrong_node = log.iter().any(|(n, _, _)| *n != node);
-    let xs: Vec<String> = log.iter().map(|(_, q, r)| format!("{}>{}", q, enc_resp(r))).collect();
-    format!("O/{:x}/{}/{}", if wrong_node { 0xff } else { node }, if xs.is_empty() { "-".to_string() } else { xs.join(";") }, out)
+    obs_token(node, &log, &out)
 }
 
 /// Observation tokens of an execute_iter op: the handler's log cut into pages (a page = the
@@ -1019,7 +1117,9 @@ fn finish_obs(cluster: &MockCluster, srv: &Arc<Mutex<Srv>>, node: usize, out: St
 /// the stream yielded for it.
 fn finish_pages(cluster: &MockCluster, srv: &Arc<Mutex<Srv>>, node: usize, rows: Vec<RawRow>, final_err: Option<String>) -> String {
     let log: Vec<(usize, String, Resp)> = std::mem::take(&mut srv.lock().unwrap().log);
-    cluster.drain_trace();
+    if user_frames(cluster, srv) != log.len() {
+        return format!("OI/1 O/{:x}/TRACE-MISMATCH/n", node);
+    }
     let mut pages: Vec<Vec<(usize, String, Resp)>> = vec![];
     let mut cur: Vec<(usize, String, Resp)> = vec![];
     for e in log {
@@ -1046,7 +1146,6 @@ fn finish_pages(cluster: &MockCluster, srv: &Arc<Mutex<Srv>>, node: usize, rows:
     let mut it = rows.into_iter();
     let npages = pages.len();
     for (j, pg) in pages.into_iter().enumerate() {
-        let wrong_node = pg.iter().any(|(n, _, _)| *n != node);
         let xs: Vec<String> = pg.iter().map(|(_, q, r)| format!("{}>{}", q, enc_resp(r))).collect();
         let out = match &pg.last().unwrap().2 {
             Resp::Rows { nrows, paging, .. } if pg.last().unwrap().1.starts_with("x:") => {
@@ -1069,7 +1168,7 @@ fn finish_pages(cluster: &MockCluster, srv: &Arc<Mutex<Srv>>, node: usize, rows:
                 _ => "e:no-error-reported".to_string(),
             },
         };
-        toks.push(format!("O/{:x}/{}/{}", if wrong_node { 0xff } else { node }, xs.join(";"), out));
+        toks.push(format!("O/{:x}/{}/{}", node_field(node, &pg), xs.join(";"), out));
     }
     toks.join(" ")
 }
@@ -1207,6 +1306,19 @@ fn gen_case(r: &mut Rng) -> Case {
                 let items = (0..k).map(|_| if r.chance(1, 5) { BItem::Q(r.below(4) as u32) } else { BItem::P(r.below(ns as u64) as usize, rb0(r, 4)) }).collect();
                 ops.push(Op::B { node, btype: r.below(2) as u8, cons: *r.pick(&[1u16, 4, 6]), serial: *r.pick(&[None, Some(9u16)]), ts: if r.chance(1, 3) { Some(r.below(1 << 50) as i64) } else { None }, items });
             }
+            13 if !generic && nnodes >= 2 && r.chance(1, 2) => {
+                // two concurrent callers sharing the statement handle, on different nodes; often after a
+                // schema change on one of them, and followed by a sequential call that shows the cell
+                let n1 = (node + 1 + r.below(nnodes as u64 - 1) as usize) % nnodes;
+                if r.bool() {
+                    ops.push(Op::E { node: n1, kind: 's', s, arg: r.below(stmts[s].vers.len() as u64) });
+                }
+                ops.push(Op::Y { d0: *r.pick(&[0u64, 30, 60]), d1: *r.pick(&[0u64, 0, 30]) });
+                for nd in [node, n1] {
+                    ops.push(Op::X { s, node: nd, uc: r.bool(), psize: None, paging: None, value: rb0(r, 5), cons: *r.pick(&[1u16, 4, 6]), serial: None, ts: None, pseed: r.below(1 << 20), haspg: false });
+                }
+                ops.push(Op::X { s, node: *r.pick(&[node, n1]), uc: r.bool(), psize: None, paging: None, value: rb0(r, 5), cons: 1, serial: None, ts: None, pseed: r.below(1 << 20), haspg: false });
+            }
             13 | 14 => ops.push(Op::E { node, kind: 'e', s, arg: 0 }),
             15 => {
                 // ALTER then invalidation: the history the property's note mentions
@@ -1282,7 +1394,7 @@ fn main() {
                     Ok(o) => o,
                     Err(e) => format!("error panic {}", e),
                 };
-                let env = out.starts_with("error session") || out.starts_with("error start-cluster") || out.contains("RequestTimeout") || out.contains("BrokenConnection") || out.contains("ConnectionPoolError") || out.contains("AddrInUse");
+                let env = out.starts_with("error session") || out.starts_with("error start-cluster") || out.contains("RequestTimeout") || out.contains("BrokenConnection") || out.contains("ConnectionPoolError") || out.contains("AddrInUse") || out.contains("EmptyPlan") || out.contains("TRACE-MISMATCH");
                 if !env {
                     break;
                 }
